@@ -26,6 +26,13 @@ def showWrite (w : Py.TifWrite Rat) : String :=
 `gframend pids= x= y= z= r= d= res= shape=n,… dt= data=` → the frames of the GENERATED `transform` when the k-th call of `sample` answers `a[k]`,
 ` / `-joined, ` # `, the array `__call__` makes of them -/
 def handleImgIo2 (what : String) (args : List String) : String :=
+  if what = "gtsinit" then
+    -- `gtsinit res=<rationals> scalar=0|1` → the field `resolution` of the GENERATED `ToImageStack.__init__` (`E` = AssertionError)
+    match Resample.argRats args "res", Proto.arg args "scalar" with
+    | some [a], some "1" => match tostack_init_scalar (K := Rat) castRat a with | some (r, _) => Resample.showRats r | none => "E"
+    | some l, some "0" => match tostack_init_array (K := Rat) castRat l with | some (r, _) => Resample.showRats r | none => "E"
+    | _, _ => "bad-args"
+  else
   match argArr args with
   | none => "bad-args"
   | some a =>
